@@ -4,6 +4,7 @@
 package c20
 
 import (
+	"encoding/json"
 	"fmt"
 	"os"
 	"math/rand"
@@ -285,11 +286,12 @@ func runCase(rep *vh.Report, c *ctx, i int, cl cell, pc payloadClass, r *rand.Ra
 				rep.Count("marker_in_non_html_body", 1)
 			}
 		}
-		if cl.json && isJSON(hct) {
-			rep.Count("compared."+pos.name, 1)
-			if pos.reflects {
-				// JSON renders of a reflecting position count as reached when the handler answered at all
+		if isJSON(hct) {
+			rep.Count("json_checked."+pos.name, 1)
+			var v interface{}
+			if json.Unmarshal(hr.Body, &v) == nil && containsAny(fmt.Sprint(v), hNeedles) {
 				rep.Count("reached."+pos.name, 1)
+				rep.Count("json_reached."+pos.name, 1)
 			}
 		}
 		return
@@ -323,7 +325,7 @@ func runCase(rep *vh.Report, c *ctx, i int, cl cell, pc payloadClass, r *rand.Ra
 			rep.Count("payload_shown_verbatim", 1)
 		}
 		if !pos.reflects {
-			rep.Count("reflected_from_unlisted_position."+pos.name, 1)
+			rep.Count("unlisted_position_text_seen_in."+kind+".from."+pos.name, 1)
 		}
 	} else {
 		rep.Count("not_reached."+pos.name, 1)
@@ -343,12 +345,15 @@ func runCase(rep *vh.Report, c *ctx, i int, cl cell, pc payloadClass, r *rand.Ra
 	}
 
 	// occurrences in slots that are never data: judged against the twin when there is one, else absolutely
+	var misplaced []string
 	for _, b := range sortedKeys(hv.Bad) {
 		if tv != nil && tv.Bad[b] {
 			continue
 		}
-		rep.Count("marker_misplaced", 1)
-		violate("payload-marker-outside-text-and-own-attribute-value", kind, "marker found in "+where(b), hNeedles[0])
+		misplaced = append(misplaced, where(b))
+	}
+	if len(misplaced) > 0 {
+		rep.Count("marker_misplaced", len(misplaced))
 	}
 	if !comparable {
 		rep.Count("diverged_from_twin", 1)
@@ -356,13 +361,23 @@ func runCase(rep *vh.Report, c *ctx, i int, cl cell, pc payloadClass, r *rand.Ra
 		if hv.AttrOcc > 0 {
 			rep.Count("diverged_with_attribute_occurrence", 1)
 		}
+		if len(misplaced) > 0 {
+			violate("payload-marker-outside-text-and-own-attribute-value", kind, "marker found in "+strings.Join(misplaced, ", ")+" (no benign render took the same branch)", hNeedles[0])
+		}
 		return
 	}
 	rep.Count("html_compared_with_twin", 1)
 	rep.Count("compared."+pos.name, 1)
 	if d := firstDiff(hv.Skel, tv.Skel); d != "" {
 		rep.Count("skeleton_mismatch", 1)
+		if len(misplaced) > 0 {
+			d += "; marker found in " + strings.Join(misplaced, ", ")
+		}
 		violate("html-token-skeleton-differs-from-benign-render", kind, d, hNeedles[0])
+		return
+	}
+	if len(misplaced) > 0 {
+		violate("payload-marker-outside-text-and-own-attribute-value", kind, "same skeleton as the benign render, but marker found in "+strings.Join(misplaced, ", "), hNeedles[0])
 		return
 	}
 	if hv.Tree != tv.Tree {
